@@ -74,6 +74,10 @@ class RSocketClient(RSocketBase):
         self._reset_internals()
         self._start_tasks()
 
+        # queue SETUP before a transport becomes available: the sender starts as soon as the
+        # transport future resolves, and nothing may be sent ahead of SETUP.
+        await super().connect()
+
         try:
             await self._connect_new_transport()
         except RSocketNoAvailableTransport:
@@ -84,7 +88,7 @@ class RSocketClient(RSocketBase):
             await self._on_connection_error(exception)
             return
 
-        return await super().connect()
+        return self
 
     async def _stop_tasks(self):
         await super()._stop_tasks()
